@@ -10,13 +10,11 @@ Fixpoint nodup_z (l : list Z) : bool :=
   match l with [] => true | a :: r => negb (existsb (Z.eqb a) r) && nodup_z r end.
 Definition mem_z (x : Z) (l : list Z) : bool := existsb (Z.eqb x) l.
 
+(* strictly increasing keys (the canonical dump of a Go map): each key is below all later ones *)
 Fixpoint keys_sorted {V} (l : list (string * V)) : bool :=
   match l with
   | [] => true
-  | (k, _) :: r => match r with
-                   | [] => true
-                   | (k', _) :: _ => str_ltb k k' && keys_sorted r
-                   end
+  | (k, _) :: r => forallb (fun e => str_ltb k (fst e)) r && keys_sorted r
   end.
 
 Definition is_u64 (z : Z) : bool := (0 <=? z) && (z <? two64).
